@@ -170,4 +170,4 @@ pub type Cancel = CancelImpl<CancelIoImpl>;
 
 #[cfg(kani)]
 #[path = "/verif/harness/may/cancel.rs"]
-mod verif_kani;
+pub(crate) mod verif_kani;
